@@ -17,7 +17,7 @@ def run(rep, tier, seed, replay):
     exprs = lib.inputs(rep, "C04", tier, seed, 1200, 15000, replay)
     if replay is None:
         import gen as _gen
-        exprs += [e for e in _gen.nested_tree_edge_family() + _gen.tree_position_family() if e not in set(exprs)]
+        exprs += [e for e in _gen.nested_tree_edge_family() + _gen.tree_position_family() + _gen.nested_middle_family() if e not in set(exprs)]
         # single-character classes (the escape idiom) next to other capturing tokens
         exprs += [e for e in ["[.]*", "*[.]{tar,zip}", "**/[_]?*.rs", "log[*]<[0-9]:1,>", "[a]?", "$[B]", "[.][.]*", "{a,b}[-]*", "[!.]*[.]?"] if e not in set(exprs)]
     P = lib.Pair(exprs)
